@@ -90,6 +90,10 @@ func NewParameterPool[T any](
 				"failed to persist generated parameter: [%w]",
 				err,
 			)
+			// The parameter could not be persisted and there is nothing to
+			// put into the pool: `persisted` is nil in this case. Skip this
+			// parameter; the scheduler calls the worker function again.
+			return
 		}
 
 		select {
